@@ -88,7 +88,7 @@ func TestDevFP(t *testing.T) {
 		t.Skip()
 	}
 	sim.Quiet()
-	for _, c := range []sim.Check{C02{}, C06{}} {
+	for _, c := range []sim.Check{C02{}, C06{}, C08X{}} {
 		i := 0
 		rapid.Check(t, func(rt *rapid.T) {
 			sc := c.Gen(rt, "quick")
